@@ -148,15 +148,16 @@ def gen_pack(rng, world, flavour=None, allow_iterative=True):
     rng.shuffle(inferral)
     exp_mask = _mask(rng, 0.35)
     drop = bool(tracked) and rng.random() < 0.35
+    alast = rng.random() < 0.3
     r = rng.random()
     if r < 0.45:
-        expansion = [[{"t": "Expand", "d": 1, "mask": exp_mask, "lazy": lazy(), "drop": drop}]]
+        expansion = [[{"t": "Expand", "d": 1, "mask": exp_mask, "lazy": lazy(), "drop": drop, "atom_last": alast}]]
     elif r < 0.6:
-        expansion = [[{"t": "Expand", "d": 2, "mask": exp_mask, "lazy": lazy(), "drop": drop}]]
+        expansion = [[{"t": "Expand", "d": 2, "mask": exp_mask, "lazy": lazy(), "drop": drop, "atom_last": alast}]]
     elif r < 0.75:
         expansion = [
-            [{"t": "Expand", "d": 1, "mask": exp_mask, "lazy": lazy(), "drop": drop}],
-            [{"t": "Expand", "d": 2, "mask": _mask(rng, 0.35), "lazy": lazy(), "drop": drop}],
+            [{"t": "Expand", "d": 1, "mask": exp_mask, "lazy": lazy(), "drop": drop, "atom_last": alast}],
+            [{"t": "Expand", "d": 2, "mask": _mask(rng, 0.35), "lazy": lazy(), "drop": drop, "atom_last": alast}],
         ]
     else:
         expansion = [
@@ -182,6 +183,10 @@ def gen_pack(rng, world, flavour=None, allow_iterative=True):
         ver.append({"t": "FiatVerified", "salt": rng.randrange(1000), "pct": rng.choice([5, 15, 40]), "ignore_parent": rng.random() < 0.3})
         if rng.random() < 0.5:
             ver.reverse()
+    if rng.random() < 0.08:
+        # no atom verification at all: only a generous fiat verification; atoms (and most other classes)
+        # can then only be enumerated through reverse rules
+        ver = [{"t": "FiatVerified", "salt": rng.randrange(1000), "pct": rng.choice([40, 55, 70]), "ignore_parent": False}]
     symmetries = []
     if rng.random() < 0.2:
         n = len(world["alphabet"])
@@ -583,6 +588,16 @@ class Sim:
                 self._forest_keys(db, rule, now - start_len - nested)
         if self.mirrors is not None:
             self.mirrors.feed(start, ends, rule)
+        if self.focus in ("C19S", "ALL") and self.searcher is not None and self.searcher.expand_verified and rule.workable:
+            # 'keep working on verified classes': the children of a workable rule are queued whether or not
+            # they are verified already (expand_comb_class relies on this in its retry with reverse rules)
+            for l in ends:
+                if l not in self.qmon.added_set:
+                    raise Violation(
+                        "C19:workable-child-not-queued",
+                        f"searcher created with expand_verified=True: child {l} of the workable rule {start} -> {tuple(ends)} "
+                        f"({rule.strategy!r}) was never added to the queue (verified: {db.is_verified(l)})",
+                    )
         if self.focus not in ("C04", "ALL"):
             return
         children = tuple(rule.children)
